@@ -1463,6 +1463,9 @@ fn grammar<W: Write>(r: &mut Rng, cfg: &TermCfg, n: usize, o: &mut Out<W>) {
         let text = if i % 2 == 0 {
             let v = gen::narsese(r, cfg);
             o.count(&format!("kind.{}", kind_name(&v)));
+            // recorded so that the check can evaluate the hypotheses of `ascii_conforms_enum` on this value
+            let raw = ser::narsese(&v, Mode::Raw);
+            o.efmt("ascii", &raw, &v);
             ff.format_narsese(&v)
         } else {
             let v = gen::lnarsese(r, &vocab, cfg.max_depth, cfg.max_arity);
@@ -1473,6 +1476,8 @@ fn grammar<W: Write>(r: &mut Rng, cfg: &TermCfg, n: usize, o: &mut Out<W>) {
                 o.count("skipped.named-placeholder");
                 continue;
             }
+            // recorded so that the check can evaluate the hypotheses of `ascii_conforms_wf` on this value
+            o.run("lfmt", "ascii", &sv);
             lf.format_narsese(&v)
         };
         if !grammar_safe(&text) {
